@@ -7,6 +7,8 @@ Lifts (from the Python ast, refusing anything of an unknown shape):
       difference(between_groups): subtrahend = apply_grouping(<"min">), result = (mf - subtrahend).abs().<max>()
       ratio(between_groups):      apply_grouping(<"min">) / apply_grouping(<"max">)
       ratio(to_overall):          (by_group / overall).apply(transform(ratio_sub_one)).<min>()
+(read off the symbolically executed method bodies of lifters/aggregate_gen.py, so that renaming a local
+variable or reordering independent statements changes nothing).
 The Lean model (`Model/Aggregate.lean`) is written in terms of these generated definitions, and the C02
 theorems are proved about them: a source change re-checks (or breaks) the proofs."""
 import ast
@@ -68,47 +70,30 @@ def lift_sub_one(fn):
             f"else {expr(node.orelse[0].value, arg)}")
 
 
-def grouping_const(call):
-    """self.apply_grouping("min"|"max", ...) -> 'min'|'max'"""
-    if not (isinstance(call, ast.Call) and isinstance(call.func, ast.Attribute) and call.func.attr == "apply_grouping"
-            and call.args and isinstance(call.args[0], ast.Constant) and call.args[0].value in ("min", "max")):
-        raise U("expected self.apply_grouping('min'|'max', ...)")
-    return call.args[0].value
+def match(term, pattern, what):
+    """match a lifted term (lifters/aggregate_gen.T) against a nested tuple pattern; '?x' captures"""
+    cap = {}
 
-
-def method_branches(fn, what):
-    """the `if method == "between_groups": ... elif method == "to_overall": ... else: raise` statement"""
-    for s in fn.body:
-        if isinstance(s, ast.If) and isinstance(s.test, ast.Compare) and isinstance(s.test.left, ast.Name) \
-                and s.test.left.id == "method" and isinstance(s.test.comparators[0], ast.Constant) \
-                and s.test.comparators[0].value == "between_groups" and isinstance(s.test.ops[0], ast.Eq):
-            if not (len(s.orelse) == 1 and isinstance(s.orelse[0], ast.If)):
-                raise U(f"{what}: no elif for to_overall")
-            e = s.orelse[0]
-            if not (isinstance(e.test, ast.Compare) and isinstance(e.test.comparators[0], ast.Constant)
-                    and e.test.comparators[0].value == "to_overall"):
-                raise U(f"{what}: second branch is not to_overall")
-            return s.body, e.body
-    raise U(f"{what}: method dispatch not found")
-
-
-def final_agg(value, inner_attr):
-    """<X>.<inner_attr>()[.groupby(...)].<agg>()  -> agg ; X is returned too"""
-    if not (isinstance(value, ast.Call) and isinstance(value.func, ast.Attribute) and value.func.attr in ("min", "max")):
-        raise U("aggregation is not .min()/.max()")
-    agg = value.func.attr
-    inner = value.func.value
-    if isinstance(inner, ast.Call) and isinstance(inner.func, ast.Attribute) and inner.func.attr == "groupby":
-        inner = inner.func.value
-    if inner_attr is None:
-        return agg, inner
-    if not (isinstance(inner, ast.Call) and isinstance(inner.func, ast.Attribute) and inner.func.attr == inner_attr):
-        raise U(f"expected .{inner_attr}() before the aggregation")
-    return agg, inner.func.value
+    def go(t, p):
+        if isinstance(p, str):
+            if p.startswith("?"):
+                if cap.setdefault(p[1:], t) != t:
+                    raise U(f"{what}: inconsistent {p[1:]}")
+                return
+            if t != p:
+                raise U(f"{what}: expected {p}, found {t if isinstance(t, str) else t.op}")
+            return
+        if isinstance(t, str) or t.op != p[0] or len(t.args) != len(p) - 1:
+            raise U(f"{what}: expected {p[0]}(...), found {t if isinstance(t, str) else t.op}")
+        for a, q in zip(t.args, p[1:]):
+            go(a, q)
+    go(term, pattern)
+    return cap
 
 
 @translate.lifter
 def lift(repo):
+    from . import aggregate_gen
     src = open(os.path.join(repo, REL)).read()
     tree = ast.parse(src)
     cls = next((n for n in tree.body if isinstance(n, ast.ClassDef) and n.name == "DisaggregatedResult"), None)
@@ -117,58 +102,42 @@ def lift(repo):
     meth = {n.name: n for n in cls.body if isinstance(n, ast.FunctionDef)}
     if "difference" not in meth or "ratio" not in meth:
         raise U("difference/ratio not found")
-    # ---- ratio
-    ratio = meth["ratio"]
-    sub = next((n for n in ratio.body if isinstance(n, ast.FunctionDef) and n.name == "ratio_sub_one"), None)
+    sub = next((n for n in meth["ratio"].body if isinstance(n, ast.FunctionDef) and n.name == "ratio_sub_one"), None)
     if sub is None:
         raise U("nested function ratio_sub_one not found")
     sub_one = lift_sub_one(sub)
-    rb, ro = method_branches(ratio, "ratio")
-    if not (len(rb) == 1 and isinstance(rb[0], ast.Assign) and isinstance(rb[0].value, ast.BinOp)
-            and isinstance(rb[0].value.op, ast.Div)):
-        raise U("ratio(between_groups) is not a single quotient")
-    num, den = grouping_const(rb[0].value.left), grouping_const(rb[0].value.right)
-    # to_overall: ratios = by_group / overall (both branches), transform(ratio_sub_one), result = ratios.min()...
-    quots, aggs, transformed = 0, set(), False
-    for n in ast.walk(ast.Module(body=ro, type_ignores=[])):
-        if isinstance(n, ast.Assign) and isinstance(n.value, ast.BinOp) and isinstance(n.value.op, ast.Div):
-            l, r = ast.unparse(n.value.left), ast.unparse(n.value.right)
-            if not (l.startswith("self.by_group") and r.startswith("self.overall")):
-                raise U(f"ratio(to_overall): quotient is {l} / {r}")
-            quots += 1
-        if isinstance(n, ast.Call) and isinstance(n.func, ast.Attribute) and n.func.attr == "transform":
-            if not (n.args and isinstance(n.args[0], ast.Name) and n.args[0].id == "ratio_sub_one"):
-                raise U("ratio(to_overall): transform is not ratio_sub_one")
-            transformed = True
-        if isinstance(n, ast.Assign) and isinstance(n.targets[0], ast.Name) and n.targets[0].id == "result":
-            v = n.value
-            if isinstance(v, ast.Call) and isinstance(v.func, ast.Attribute) and v.func.attr == "unstack":
-                v = v.func.value
-            a, inner = final_agg(v, None)
-            if not (isinstance(inner, ast.Name) and inner.id == "ratios"):
-                raise U("ratio(to_overall): aggregation is not over `ratios`")
-            aggs.add(a)
-    if quots == 0 or not transformed or len(aggs) != 1:
-        raise U(f"ratio(to_overall): unexpected shape (quotients={quots}, transform={transformed}, aggs={aggs})")
-    ratio_agg = aggs.pop()
-    # ---- difference
-    diff = meth["difference"]
-    db, do = method_branches(diff, "difference")
-    if not (len(db) == 1 and isinstance(db[0], ast.Assign) and db[0].targets[0].id == "subtrahend"):
-        raise U("difference(between_groups): subtrahend assignment not found")
-    dsub = grouping_const(db[0].value)
-    if not (len(do) == 1 and isinstance(do[0], ast.Assign) and ast.unparse(do[0].value) == "self.overall"):
-        raise U("difference(to_overall): subtrahend is not self.overall")
-    daggs = set()
-    for n in ast.walk(diff):
-        if isinstance(n, ast.Assign) and isinstance(n.targets[0], ast.Name) and n.targets[0].id == "result":
-            a, inner = final_agg(n.value, "abs")
-            if ast.unparse(inner) != "mf - subtrahend":
-                raise U(f"difference: expected (mf - subtrahend).abs(), found {ast.unparse(inner)}")
-            daggs.add(a)
-    if len(daggs) != 1:
-        raise U(f"difference: aggregations {daggs}")
-    dagg = daggs.pop()
+    # The grouping constants are read off the symbolically executed method bodies (lifters/aggregate_gen.py: local
+    # variable names and statement order do not matter), in both control-feature worlds, which must agree.
+    terms = aggregate_gen.world_terms(repo)
+    consts = {}
+    for cf in (False, True):
+        w = "with" if cf else "without"
+        c = {}
+        m = match(terms["difference", "between_groups", cf],
+                  ("aggLevel", "?agg", ("map", "XR.abs", ("bcast", "XR.sub", ("coerced",), ("grouping", "?sub")))),
+                  f"difference(between_groups, {w} control features): not (mf - apply_grouping(g)).abs()[.groupby(level=cf)].agg()")
+        c["dsub"], c["dagg"] = m["sub"], m["agg"]
+        m = match(terms["difference", "to_overall", cf],
+                  ("aggLevel", "?agg", ("map", "XR.abs", ("bcast", "XR.sub", ("coerced",), ("overall",)))),
+                  f"difference(to_overall, {w} control features): not (mf - self.overall).abs()[.groupby(level=cf)].agg()")
+        if m["agg"] != c["dagg"]:
+            raise U(f"difference: aggregations {sorted({m['agg'], c['dagg']})}")
+        m = match(terms["ratio", "between_groups", cf],
+                  ("same", "XR.div", ("grouping", "?num"), ("grouping", "?den")),
+                  f"ratio(between_groups, {w} control features): not apply_grouping(g) / apply_grouping(g')")
+        c["num"], c["den"] = m["num"], m["den"]
+        m = match(terms["ratio", "to_overall", cf],
+                  ("aggLevel", "?agg", ("map", "AggregateSpec.ratioSubOne", ("bcast", "XR.div", ("bygroup",), ("overall",)))),
+                  f"ratio(to_overall, {w} control features): not (by_group / overall).apply(transform(ratio_sub_one)).agg()")
+        c["ragg"] = m["agg"]
+        consts[cf] = c
+    if consts[False] != consts[True]:
+        raise U(f"the aggregates differ with / without control features: {consts[False]} vs {consts[True]}")
+    c = consts[True]
+    for k, v in c.items():
+        if v not in (".min", ".max"):
+            raise U(f"{k}: grouping function {v}")
+    dsub, dagg, num, den, ratio_agg = (c[k][1:] for k in ("dsub", "dagg", "num", "den", "ragg"))
     lean = f"""-- GENERATED by harness/lifters/aggregate.py from {REL}; do not edit.
 import FairModel.Model.XRArith
 
